@@ -196,6 +196,12 @@ def run_shard(ctx):
             k = rng.choice((nblocks - 1, nblocks, nblocks + 3, 256, 257))
             run_history(ctx, case, [k, rng.choice((0, 3, k)), 1], tmpdir, use_recorder_class=rng.random() < 0.5)
             ctx.count("long_histories")
+        if ctx.shard in (0, 8) or ctx.tier == "thorough":
+            nb = 65536 + rng.randint(200, 3000)
+            case = dict(bfrac=0, hfrac=0, width=1, channels=1, rate=8000, block=1, hop=None, nsamples=nb + 5, max_read_samples=None,
+                        kind="bytes", extra_reads=1, record=True, seed=rng.getrandbits(32))
+            run_history(ctx, case, [nb, 3, 1], tmpdir, use_recorder_class=bool(ctx.shard))
+            ctx.count("histories_of_more_than_65536_reads")
         rng = ctx.rng("random")
         for i in range(conf["random"]):
             case = RC.random_reader_case(rng, small=(i % 5 != 0))
@@ -228,5 +234,5 @@ def inconclusive(merged, tier):
     c = merged["counters"]
     need = ["histories", "rewinds", "replayed_reads", "data_before_rewind_raised", "histories_with_overlap",
             "histories_with_max_read", "histories_rewound_after_zero_reads", "histories_read_past_the_end",
-            "histories_rewound_after_partial_read", "non_recording_attribute_checks", "exhaustive_core_histories", "long_histories", "data_before_rewind_raised_after_reads"]
+            "histories_rewound_after_partial_read", "non_recording_attribute_checks", "exhaustive_core_histories", "long_histories", "data_before_rewind_raised_after_reads", "histories_of_more_than_65536_reads"]
     return [f"monitor never observed {k}" for k in need if c.get(k, 0) == 0]
